@@ -78,8 +78,14 @@ def report_stage(ctx, q):
     rc, out = vlib.go_test(ctx, "", GR, "TestVerifGroupReport$", env={"VERIF_OUT": tp, "VERIF_NRANDOM": 25 if q else 1000}, timeout=1800)
     if rc != 0:
         raise vlib.MachineryError("group report driver failed:\n" + out[-3000:])
+    tc = ctx.path("coupling.ndjson")
+    rc, out = vlib.go_test(ctx, "", GR, "TestVerifCoupling$", env={"VERIF_OUT": tc, "VERIF_NRANDOM": 60 if q else 2000}, timeout=1800)
+    if rc != 0:
+        raise vlib.MachineryError("coupling driver failed:\n" + out[-3000:])
+    vlib.write_ndjson(tp, vlib.read_ndjson(tp) + vlib.read_ndjson(tc))
     viols, done = vlib.validate_trace(ctx, "GroupReportTrace", "GroupReportTrace.cfg", tp, timeout=900)
     ev = vlib.read_ndjson(tp)
+    ctx.notes["coupling_requests_on_lancero_object"] = sum(1 for e in ev if e["ev"] == "GReq" and e["op"] in ("fb2err", "err2fb", "none", "restart"))
     ctx.notes["rpc_group_requests"] = sum(1 for e in ev if e["ev"] == "GReq")
     ctx.notes["rpc_group_requests_mixed"] = sum(1 for e in ev if e["ev"] == "GReq" and not e["ok"] and e["op"] != "stop")
     for v in viols:
@@ -87,7 +93,7 @@ def report_stage(ctx, q):
         k = v["line"] - 1
         while ev[k]["ev"] != "GBegin":
             k -= 1
-        vlib.report_violation(ctx, {"predicate": v["predicate"], "event": "GReq", "op": e["op"], "ok": e["ok"], "layer": "rpc"},
+        vlib.report_violation(ctx, {"predicate": v["predicate"], "event": "GReq", "op": e["op"], "ok": e["ok"], "layer": "rpc" if ev[k]["scen"] < 100000 else "lancero-object"},
                               {"history": ev[k:v["line"]]})
 
 
@@ -115,7 +121,7 @@ def run(ctx):
     ctx.notes["connection_requests"] = sum(1 for e in events if e["ev"] == "Conn")
     ctx.notes["cycles_with_connections"] = sum(1 for e in events if e["ev"] == "Cycle")
     return vlib.finish(ctx, LEVEL, RULE,
-                       ["error/feedback coupling requests (Lancero only) are exercised by the C04 driver", "2-5 channels"])
+                       ["error/feedback coupling is exercised on a LanceroSource object without hardware (SetCoupling, group edits, restarts of the same object)", "2-5 channels"])
 
 
 def replay(ctx, path):
